@@ -18,6 +18,7 @@ Binding:
   pressure whatever the order), and histories of psd_microporous(adsorbate_model=None) over adsorbates x temperatures
   are judged call by call like first calls.
 """
+import inspect
 import math
 import os
 
@@ -196,6 +197,7 @@ def main(tier, seed):
 
     # ---- 5. run the library
     judge_q, meta = [], []
+    rycyl = []
     nstored = {}
     with Capture(pm) as cap:
         for i, s in enumerate(live):
@@ -282,6 +284,8 @@ def main(tier, seed):
                 continue
             L = cap.last.get("L")
             f, bound = cap.last["f"], cap.last["bound"]
+            if s["model"].startswith("RY") and s["geo"] == "cylinder" and L is not None:
+                rycyl.append((s, dict(sigbase), f, A, H, [float(x) for x in L]))
             if L is None:
                 raise MachineryError("solver wrapper did not see a call")
             obs = {"f0": [], "fm": [], "fp": [], "gm": [], "gp": []}
@@ -362,6 +366,65 @@ def main(tier, seed):
                                 "dist": [enc(x) for x in out["pore_distribution"]], "cum": [enc(x) for x in out["pore_volume_cumulative"]], "chosen": pr["W"]})
                 meta.append((s_, sigbase, "api-history", "Carbon(HK)", L, [float(x) for x in pressure], [float(x) for x in out["pore_widths"]]))
         run.set(adsorbate_histories=nhist, psd_microporous_runs_by_stored_representation=nstored)
+
+    # ---- 5c. Rege-Yang cylinder: which rings of molecule centres exist, the population rule of each (a ring narrower than
+    # one molecule is a single file and counts ONE) and the population-weighted average (spec/HK.tla RYCylJudge).  The
+    # per-ring series values come from the library's own series routine (closure variable potential_general of the
+    # observed potential); lengths: the solver's own plus, per number of rings m = 1..5, innermost ring diameters of
+    # 0.3, 0.7 (single file), 1.3 and 1.9 molecule diameters.
+    ry_q, ry_meta = [], []
+    for s, sigbase, f, A, H, Ls in rycyl:
+        try:
+            nl = inspect.getclosurevars(f).nonlocals
+            pg, d0, dg = nl["potential_general"], float(nl["d_eff"]), float(nl["d_ads"])
+            nm, am, na, aa = nl["n_mat"], nl["a_mat"], nl["n_ads"], nl["a_ads"]
+        except Exception:
+            run.add("rycyl_scenarios_without_observable_series_routine")
+            continue
+        d0_ref = (A["dict"]["molecular_diameter"] + H["dict"]["molecular_diameter"]) / 2
+        if abs(d0 - d0_ref) > 1e-9 or abs(dg - A["dict"]["molecular_diameter"]) > 1e-9:
+            run.add("rycyl_scenarios_without_observable_series_routine")
+            continue
+        designed = [d0 + (m - 1 + fr / 2) * dg for m in range(1, 6) for fr in (0.3, 0.7, 1.3, 1.9)]
+        for x in designed + Ls:
+            K = int(max(0.0, (x - d0) / dg)) + 3
+            phis, asins = [], []
+            with numpy.errstate(all="ignore"):
+                for k in range(1, K + 1):
+                    wd = 2 * (x - d0 - (k - 1) * dg)
+                    asins.append(math.asin(dg / wd) if wd >= dg else 1.0)
+                    if wd < 0:
+                        phis.append(0.0)
+                    elif k == 1:
+                        phis.append(float(pg(x, d0, nm, am, d0 / x)))
+                    else:
+                        phis.append(float(pg(x, dg, na, aa, dg / (x - d0 - (k - 2) * dg))))
+                fx = float(f(x))
+            if not (math.isfinite(fx) and all(math.isfinite(v) for v in phis)):
+                run.add("rycyl_points_skipped_nonfinite")
+                continue
+            ry_q.append({"k": "rycyl", "L": enc(x), "d0": enc(d0), "dg": enc(dg), "T": s["T"], "phi": [enc(v) for v in phis],
+                         "asin": [enc(v) for v in asins], "f": enc(fx)})
+            ry_meta.append((s, sigbase, x, fx))
+    ry_ans = tlc.oracle("HKOracle", ry_q, timeout=900, chunk=400) if ry_q else []
+    nry = {"judged": 0, "edge": 0, "with_single_file": 0, "multi_ring_with_single_file": 0}
+    for (s, sigbase, x, fx), ans in zip(ry_meta, ry_ans):
+        if not ans["complete"]:
+            raise MachineryError("Rege-Yang cylinder query without a ring beyond the last existing one")
+        if ans["edge"]:
+            nry["edge"] += 1
+            continue
+        run.count(("rycyl", s["id"], round(x, 9)))
+        nry["judged"] += 1
+        if ans["nsingle"]:
+            nry["with_single_file"] += 1
+            if ans["nrings"] >= 2:
+                nry["multi_ring_with_single_file"] += 1
+        if not ans["ok"]:
+            run.violation({**sigbase, "site": "psd_horvath_kawazoe_ry", "clause": "published", "rings": ans["nrings"], "single_file_innermost": bool(ans["nsingle"]),
+                           "observed": "the library's potential is not the population-weighted average over the existing rings (a ring narrower than a molecule counts one)"},
+                          {"scenario": s, "L": x, "library": fx, "expected": dec_dec(ans["expected"])})
+    run.set(rege_yang_cylinder_population_points=nry)
 
     # ---- 6. TLC judges
     answers = tlc.oracle("HKOracle", judge_q + [a for _, a in audit], timeout=1500, chunk=400)
